@@ -521,7 +521,7 @@ def fam_var(chk, da, tier):
         n = rng.choice([1, 2, 3, 5, 8, 13, 21])
         zero = rng.random() < 0.25
         chunks = rand_chunks(rng, n, zero=zero)
-        inputs.append((chunks, [rng.randint(-5, 5) for _ in range(n)], rng.choice([2, 2, 3, 4, 16]), rng.choice([0, 0, 1])))
+        inputs.append((chunks, [rng.randint(-5, 5) for _ in range(n)], rng.choice([2, 2, 3, 4, 16]), min(n, rng.choice([0, 0, 1, 1, 2, n]))))   # ddof = n: x/0 = inf (0/0 = nan) as in NumPy
     cases, kept = [], []
     for chunks, data, k, ddof in inputs:
         a = np.array(data, dtype="i8")
